@@ -6,11 +6,11 @@ WHY = {
  "C05-b2": "value-level: the flush condition of DeleteRange is modular arithmetic on a counter (numKV % 1000); a path-insensitive must-flush rule would also flag the correct code",
  "C14-b1": "value-level: a 4–4 vote tie decided by scan order inside downresArray; the sibling-direction rule R14.5 sees the same comparison",
  "C16-a1": "value-level: which fields a conditional update keeps",
- "C16-a3": "value-level: off-by-one in an id range end",
+ "C16-a3": "value-level: inclusive vs exclusive upper end of an id range (> vs >= in an otherwise monotone predicate)",
  "C16-b2": "value-level: which _user/_time stamps a conditional update rewrites",
- "C17-a1": "value-level: min/max arithmetic of extents",
- "C17-a2": "value-level: ROI iterator geometry",
- "C17-a4": "value-level: byte offsets of a 2-D slice copy",
+ "C17-a1": "value-level: a byte offset loses its bytes-per-voxel factor in the YZ-slice copy of readBlock (wrong only for multi-byte voxels)",
+ "C17-a2": "value-level: floor division for negative coordinates rewritten (exact multiples of the block size come out one block low)",
+ "C17-a4": "value-level: the order of two span comparisons in roi InsideFast (the x1 test hoisted before the y/z match)",
  "C17-b4": "value-level: boolean logic of Isotropy2D's early returns",
  "C09-a1": "value-level: row stride of a local variable (ny for nx) in BinaryBlock.Read; no size object is involved that R18.6 could see",
  "C15-b4": "value-level: a plausibility bound (128:1) on the LZ4 ratio rejects legitimate data",
